@@ -929,8 +929,17 @@ class StateScenario(Scenario):
                     rec.fail("C12/fresh", "C12/default-not-exposed/%s/%s" % (route, f["kind"]),
                              "%s: %s not in the loaded map exposes %r, default is %r" % (route, p, canon(value), exp))
 
-    def after_tree_rejection(self, st, rec, err, snode, tree, prefix, route, fresh_top=False):
+    def pre_invalid(self, st, target):
+        """Does the configuration already fail its own validation (e.g. after a load that failed half-way)?  Then
+        every further load into it ends in that failure, whatever the tree holds: no path claim can be made."""
+        if self.prop != "C15":
+            return False
+        errs, e = self._call(lambda: target.validate(collect_errors=True))
+        return bool(errs) or e is not None
+
+    def after_tree_rejection(self, st, rec, err, snode, tree, prefix, route, fresh_top=False, pre_bad=False):
         rej, unspec = self.judge_tree(st, snode, tree, prefix, fresh_top=fresh_top)
+        unspec = unspec or pre_bad
         faulted = st.B.fault is not None and st.B.vcount >= st.B.fault.get("nth", 99)
         if len(rej) == 1 and not unspec and not faulted:
             self.check_rejection(st, rec, err, rej[0][0], rej[0][1], route)
@@ -1015,6 +1024,7 @@ class StateScenario(Scenario):
             return
         tree = dec(op["tree"])
         s0 = snapshot.snap(cfg, st.serials)
+        st.pre_bad = self.pre_invalid(st, target)
         _, err = self._call(lambda: target.load_tree(tree))
         rec.log("load_tree", path, canon(tree), type(err).__name__ if err else "ok")
         rec.kind("ok" if err is None else "rej")
@@ -1044,7 +1054,7 @@ class StateScenario(Scenario):
                                  "%s into %s changed %s" % (route, path, d[0]))
         else:
             rec.probe(route + "-rejected")
-            self.after_tree_rejection(st, rec, err, snode, tree, prefix, route)
+            self.after_tree_rejection(st, rec, err, snode, tree, prefix, route, pre_bad=getattr(st, "pre_bad", False))
 
     def do_loads(self, st, cfg, c, op, rec):
         tree = dec(op["tree"])
@@ -1060,6 +1070,7 @@ class StateScenario(Scenario):
         if fmt != "xml":
             tree = ops.parse_doc(fmt, doc, opts)   # what the document really says, in document order
         s0 = snapshot.snap(cfg, st.serials)
+        st.pre_bad = self.pre_invalid(st, cfg)
         _, err = self._call(lambda: cfg.loads(doc, fmt, **opts))
         rec.log("loads", fmt, canon(tree), type(err).__name__ if err else "ok")
         rec.kind(fmt + (":ok" if err is None else ":rej"))
